@@ -26,6 +26,11 @@ def find_in_impls(g, ex, name):
 
 RULES = [
     ('R-misc', r'\bunsafe \{', '{'),
+    # byte sizes: the element size is some fixed number, possibly zero (a length test written in bytes says nothing for zero-sized T)
+    ('R-bytes', r'\b(?:core::)?mem::size_of::<T>\(\)', 'size_of_elem()'),
+    ('R-bytes', r'\b(?:core::)?mem::align_of::<T>\(\)', 'align_of_elem()'),
+    ('R-bytes', r'\b(?:core::)?mem::size_of::<(?:Self|GenericArray<T, N>)>\(\)', 'size_of_array::<N>()'),
+    ('R-bytes', r'\b(?:core::)?mem::size_of_val(?:::<\[T\]>)?\(&?slice\)', 'slice.size_of_val()'),
     ('R-len', r'\bN::USIZE\b', 'N::usize_()'),
     # the same reinterpretations written with `pointer::cast::<X>()` instead of `as *const X`
     ('R-ptr', r'&(?:mut )?\*\(?slice\.as_(?:mut_)?ptr\(\)\.cast::<GenericArray<T, N>>\(\)\)?', 'deref(slice.as_ptr().cast(N::usize_()))'),
